@@ -402,6 +402,9 @@ def fixed_programs():
     P.append({'a': {'inputs': [], 'lines': {'t': [('v', 'c:x.s'), ('v', 'c:y.s')]}, 'required': ['t']},
               'c:x': {'inputs': ['p'], 'lines': {'s': [('v', 'u'), ('in', 'p')], 'u': [('in', 'p')]}, 'required': ['s']},
               'c:y': {'inputs': ['p'], 'lines': {'s': [('v', 'u'), ('in', 'p')], 'u': [('in', 'p')]}, 'required': ['s']}})
+    # line names that differ only in punctuation / leading zeros (equal under the natural sort key, distinct lines all the same)
+    P.append({'a': {'inputs': ['x', 'g'], 'lines': {'l4_a': [('in', 'x')], 'l4a': [('ni_if', 'g'), ('in', 'x')], 'l01': [('in', 'g')], 'l1': [('v', 'l4a'), ('in', 'x')]},
+                    'required': ['l4_a', 'l4a', 'l01', 'l1']}})
     # a wide fan-out: 40 lines of one form wait on the same missing input at the moment it is asked
     P.append({'a': {'inputs': ['x'], 'lines': {f'w{k}': [('in', 'x')] for k in range(40)}, 'required': [f'w{k}' for k in range(40)]}})
     return P
@@ -491,4 +494,84 @@ def search(prop, seed=0, n_random=150):
         if msg:
             return {'violated': msg, 'program': prog, 'requested': requested, 'provided': provided, 'answers': answers,
                     'refuse_after': refuse, 'result': o.get('result'), 'raised': o.get('raised'), 'scenarios_tried': n}
+    return None
+
+
+# ------------------------------------------------------------------------------------------------------------------
+# Input-only forms with amounts of more than two decimals (the W-2 / 1099 pattern): a reader form sums the mirror lines of
+# three copies of a real InputForm.  Native statements: every stored amount is the declared rounding of what its definition
+# yields (C12), and every stored value equals its definition re-evaluated on the final stores (C03).
+def mirror_run(amounts, order_first=True, provided=True):
+    from habutax.form import Form, InputForm
+    from habutax.inputs import FloatInput, InputStore
+    from habutax.fields import FloatField
+    from habutax.solver import Solver
+
+    def init_w(self, **kw):
+        InputForm.__init__(self, type(self), [FloatInput('p'), FloatInput('q')], **kw)
+    W = type('Toy_w', (InputForm,), {'form_name': 'w', 'tax_year': 1, 'description': 'w', 'long_description': 'w', '__init__': init_w})
+    n = len(amounts)
+    early, late = ('a_sum', 'z_sum') if order_first else ('z_sum', 'a_sum')
+
+    def total(s, i, v):
+        return sum(v[f'w:{k}.p'] for k in range(n))
+
+    def init_r(self, **kw):
+        Form.__init__(self, type(self), [], [FloatField(early, total), FloatField(late, total), FloatField('whole', total, places=0)], [], **kw)
+    # the reader's form name sorts before 'w' so that its lines are attempted first (and after it with order_first False)
+    R = type('Toy_r', (Form,), {'form_name': 'r' if order_first else 'x', 'tax_year': 1, 'description': 'r', 'long_description': 'r', '__init__': init_r})
+    cfg = configparser.ConfigParser()
+    if provided:
+        for k, a in enumerate(amounts):
+            cfg.add_section(f'w:{k}')
+            cfg.set(f'w:{k}', 'p', a)
+            cfg.set(f'w:{k}', 'q', a)
+    answers = {f'w:{k}.{b}': a for k, a in enumerate(amounts) for b in ('p', 'q')}
+
+    def prompt(missing, needed_by):
+        return (answers[missing.name()], True) if missing.name() in answers else (None, False)
+    s = Solver(InputStore(cfg), [R, W], prompt=None if provided else prompt)
+    rname = R.form_name
+    obs = {'amounts': list(amounts), 'reader_first': order_first, 'provided_in_file': provided}
+    try:
+        obs['result'] = s.solve([rname] + [f'w:{k}' for k in range(n)])
+    except BaseException as ex:
+        obs['raised'] = f'{type(ex).__name__}: {str(ex)[:100]}'
+        return obs
+    vals = dict(s._v.values)
+    obs['values'] = {k: repr(v) for k, v in sorted(vals.items())}
+    problems = []
+    for k, a in enumerate(amounts):
+        for b in ('p', 'q'):
+            nm = f'w:{k}.{b}'
+            if nm in vals:
+                want = round(float(a), 2)
+                if not (isinstance(vals[nm], float) and vals[nm] == want):
+                    problems.append(f'{nm} holds {vals[nm]!r}; its definition yields {float(a)!r}, declared as an amount of 2 places: {want!r}')
+    stored = [vals.get(f'w:{k}.p') for k in range(n)]
+    if all(x is not None for x in stored):
+        for nm, pl in ((f'{rname}.{early}', 2), (f'{rname}.{late}', 2), (f'{rname}.whole', 0)):
+            if nm in vals:
+                want = round(sum(stored), pl)
+                if vals[nm] != want:
+                    problems.append(f'{nm} holds {vals[nm]!r}; re-evaluated on the values of the same solution it is {want!r}')
+    obs['problems'] = problems
+    return obs
+
+
+def mirror_search(prop):
+    """First mirror scenario whose native statement fails on the real solver, or None (C03: fixed point; C12: declared rounding)."""
+    cases = [['150.004', '150.004', '150.004'], ['50000.4749', '0.005', '0.0051'], ['33.3333', '33.3333', '33.3334'], ['1', '2.5', '3.25']]
+    for amounts in cases:
+        for first in (True, False):
+            for provided in (True, False):
+                try:
+                    o = mirror_run(amounts, first, provided)
+                except BaseException as ex:
+                    continue
+                ps = o.get('problems') or []
+                if prop == 'C12':
+                    ps = [p for p in ps if 'declared as' in p]
+                if ps:
+                    return {'violated': ps[0], 'kind': 'mirror', 'scenario': {'amounts': amounts, 'reader_first': first, 'provided_in_file': provided}, 'observed': o.get('values')}
     return None
